@@ -1,14 +1,42 @@
 package main
 
 import (
+	"fmt"
 	"go/ast"
 	"go/token"
 	"go/types"
+	"os"
 	"sort"
 	"strings"
 )
 
 func init() { register("C05", rulesC05, nil); registry["C05"].whole = true }
+
+// guardedMaps: map field → the mutex (lock class) that guards it. Filled from the discovery run, each entry read.
+var guardedMaps = map[string]string{
+	"Client.sendMethods":                  "Client.mu",
+	"ClientSession.pendingElicitations":   "ClientSession.pendingElicitationsMu",
+	"ClientSession.resourceSubs":          "ClientSession.resourceSubsMu",
+	"MemoryEventStore.store":              "MemoryEventStore.mu",
+	"SSEHandler.sessions":                 "SSEHandler.mu",
+	"Server.pendingNotifications":         "Server.mu",
+	"Server.promptChangeSubscriptions":    "Server.mu",
+	"Server.receiveMethods":               "Server.mu",
+	"Server.resourceChangeSubscriptions":  "Server.mu",
+	"Server.resourceSubscriptions":        "Server.mu",
+	"Server.toolChangeSubscriptions":      "Server.mu",
+	"StreamableHTTPHandler.sessions":      "StreamableHTTPHandler.mu",
+	"ioConn.batches":                      "ioConn.batchMu",
+	"methodCache.cachedValues":            "methodCache.mu",
+	"stream.requests":                     "stream.mu",
+	"streamableServerConn.requestStreams": "streamableServerConn.mu",
+	"streamableServerConn.streams":        "streamableServerConn.mu",
+}
+
+// guardedMapExempt: "<function>:<field>" → reason an unlocked access is in order.
+var guardedMapExempt = map[string]string{
+	"(*StreamableServerTransport).Connect:streamableServerConn.streams": "the connection was allocated by the preceding statement (into t.connection) and has not been returned to anybody yet",
+}
 
 func rulesC05(c *Ctx) {
 	uif := c.Fn(pJ, "Connection", "updateInFlight")
@@ -595,7 +623,35 @@ func rulesC05(c *Ctx) {
 		c.goroutineRules([]string{pJ, pM})
 	})
 
-	c.Import("R-C05-14", "Close waits for exactly the handlers that are running: every accepted request is counted on all paths of the accepting closure and un-counted once by processResult (a request refused without having been counted would un-count a running handler: Close returns, and closes the transport, under it)", "C02", "R-C02-1", func(k string) bool { return strings.HasPrefix(k, "acceptRequest:count") || strings.HasPrefix(k, "processResult:decrement") || strings.HasPrefix(k, "incoming--") })
+	c.Rule("R-C05-15", "no unsynchronised map access (a concurrent map read/write is a fatal error, not a data race one can survive): every access to a map field of a mutex-carrying SDK struct holds the mutex that guards that field (table below, confirmed by reading), except in the function that allocated the struct", func() {
+		// field → guarding lock class (Type.mutexField)
+		guard := map[string]string{}
+		for k, v := range guardedMaps {
+			guard[k] = v
+		}
+		seen := map[string]int{}
+		for _, a := range guardedMapAccesses(c, []string{pM, pJ}) {
+			g, ok := guard[a.field]
+			if !ok {
+				if os.Getenv("MCPCHECK_DISCOVER") != "" {
+					fmt.Fprintf(os.Stderr, "DISCOVER %s at %s held=%v\n", a.field, a.f.At(a.n), keysOf(a.held))
+				}
+				continue
+			}
+			seen[a.field]++
+			if why, ex := guardedMapExempt[a.f.Root().Name()+":"+a.field]; ex {
+				c.Ok("map-under-lock:"+a.field+":"+a.f.Name()+":exempt", a.f, a.n, "exempt: %s", why)
+				continue
+			}
+			c.Check(a.held[g], "map-under-lock:"+a.field+":"+a.f.Name()+"#"+itoa(seen[a.field]), a.f, a.n, "%s is accessed with %s held (held: %v)", a.field, g, keysOf(a.held))
+		}
+		for k := range guard {
+			c.Pin("accesses of "+k, seen[k], 1)
+		}
+	})
+	c.Import("R-C05-14", "Close waits for exactly the handlers that are running: every accepted request is counted on all paths of the accepting closure and un-counted once by processResult (a request refused without having been counted would un-count a running handler: Close returns, and closes the transport, under it)", "C02", "R-C02-1", func(k string) bool {
+		return strings.HasPrefix(k, "acceptRequest:count") || strings.HasPrefix(k, "processResult:decrement") || strings.HasPrefix(k, "incoming--")
+	})
 	c.Import("R-C05-11", "Close cannot be held up by a call that was abandoned: cancelCall retires the call on every path (the long-lived subscriptions/listen call is retired only this way)", "C04", "R-C04-1", func(k string) bool { return strings.HasPrefix(k, "cancelCall:retire") })
 	c.Import("R-C05-12", "no idle timer survives its session: start/end are paired, stopTimer stops and forgets the timer, the callback only closes the session", "C11", "R-C11-4", func(k string) bool {
 		return strings.HasPrefix(k, "stopTimer") || strings.HasPrefix(k, "startPOST") || strings.HasPrefix(k, "endPOST") || strings.HasPrefix(k, "idle-timer")
@@ -1145,4 +1201,57 @@ func closeOnceRule(c *Ctx) {
 		}
 	}
 	c.Pin("closes of channel fields", n, 8)
+}
+
+// guardedMapAccesses lists, for every map-typed field of an SDK struct that also has a mutex field, the accesses to
+// the map (outside the function that allocated the struct) with the must-lockset at the access.
+type mapAccess struct {
+	field string // Type.field
+	f     *Func
+	n     ast.Node
+	held  map[string]bool
+}
+
+func guardedMapAccesses(c *Ctx, rels []string) []mapAccess {
+	le := c.lockEnv()
+	var out []mapAccess
+	for _, rel := range rels {
+		for _, f := range c.funcsWithLits(rel) {
+			if f.Body == nil {
+				continue
+			}
+			inspectNoLit(f.Body, func(n ast.Node) {
+				sel, ok := n.(*ast.SelectorExpr)
+				if !ok {
+					return
+				}
+				fld, _ := f.ObjOf(sel).(*types.Var)
+				if fld == nil || !fld.IsField() {
+					return
+				}
+				if _, isMap := fld.Type().Underlying().(*types.Map); !isMap {
+					return
+				}
+				owner := namedOf(f.TypeOf(sel.X))
+				if owner == nil {
+					return
+				}
+				st, _ := owner.Underlying().(*types.Struct)
+				if st == nil {
+					return
+				}
+				hasMu := false
+				for i := 0; i < st.NumFields(); i++ {
+					if n := namedOf(st.Field(i).Type()); n != nil && n.Obj().Pkg() != nil && n.Obj().Pkg().Path() == "sync" && (n.Obj().Name() == "Mutex" || n.Obj().Name() == "RWMutex") {
+						hasMu = true
+					}
+				}
+				if !hasMu || f.baseIsLocalAlloc(sel) {
+					return
+				}
+				out = append(out, mapAccess{owner.Obj().Name() + "." + fld.Name(), f, sel, le.heldAt(f, sel)})
+			})
+		}
+	}
+	return out
 }
